@@ -444,6 +444,7 @@ impl DefragQueue {
         self.frame_window_size = None;
         self.final_packet_size = None;
         self.expected_frames = None;
+        self.last_frame_offset = None;
         self.idle = false;
         self.stream_offset = frame.header.stream_offset;
     }
@@ -471,6 +472,11 @@ impl DefragQueue {
         let frame_index = match frame.header.is_last() {
             // Operation only on the last frame
             true => {
+                // A second last frame must not replace the final size announced by the first one.
+                if self.last_frame_offset.is_some() {
+                    return Err(DefragmentInsertError::Duplicate(frame.header));
+                }
+
                 // If we receive the last frame, we know the final packet size.
                 let final_packet_size = frame.header.frame_offset as usize + frame.fragment.len();
                 self.final_packet_size = Some(final_packet_size);
@@ -574,6 +580,28 @@ impl DefragQueue {
             self.expected_frames = Some(expected_frames);
         };
 
+        // Once the number of frames is known, every middle frame has to lie before the last frame,
+        // and the last frame has to follow the middle frames directly. Otherwise the packet would
+        // be completed by frame count alone, with parts of the buffer never written.
+        if let (Some(expected_frames), Some(frame_window_size), Some(last_frame_offset)) = (
+            self.expected_frames,
+            self.frame_window_size,
+            self.last_frame_offset,
+        ) {
+            let last_frame_index = expected_frames.saturating_sub(1);
+            let inconsistent = last_frame_offset as usize != last_frame_index * frame_window_size
+                || (!frame.header.is_last() && frame_index >= last_frame_index)
+                || self.has_middle_frame_at_or_after(last_frame_index);
+            if inconsistent {
+                // Packet will never be assembled, set to true so queue can be reused
+                self.idle = true;
+                return Err(DefragmentInsertError::InvalidHeaderValue(
+                    frame.header,
+                    "frame_beyond_last_frame",
+                ));
+            }
+        }
+
         let mask_index = frame_index / BITMASK_ENTRY_BITS;
         let frame_bit_position = frame_index % BITMASK_ENTRY_BITS;
         let frame_bit_mask = 1 << frame_bit_position;
@@ -611,6 +639,15 @@ impl DefragQueue {
 
     fn received_frames(&self) -> usize {
         self.recv_mask.iter().map(|m| m.count_ones() as usize).sum()
+    }
+
+    /// Returns true if a middle frame with an index of at least `frame_index` has been received.
+    fn has_middle_frame_at_or_after(&self, frame_index: usize) -> bool {
+        // The last index is reserved for the last frame
+        (frame_index..MAX_FRAMES - 1).any(|index| {
+            self.recv_mask[index / BITMASK_ENTRY_BITS] & ((1 as BitmaskType) << (index % BITMASK_ENTRY_BITS))
+                != 0
+        })
     }
 
     pub fn is_idle(&self) -> bool {
